@@ -469,6 +469,9 @@ func c07Emit(e *Emitter, c c07Case, hist ...string) error {
 		data = append(data, b...)
 	}
 	c.chunks = c07Clip(c.chunks, c.cache, len(data))
+	if e.seen[c.desc()] {
+		return nil // same stream and same effective chunking already run (small caches clip chunkings to the same cut)
+	}
 	res := c07Run(c.cache, c.max, data, c.chunks)
 	l := res.logs
 	l.mu.Lock()
@@ -671,6 +674,28 @@ func c07GenStream(r *Rng, big bool) c07Stream {
 		}
 		it := c07GenMsg(r, L)
 		s.items = append(s.items, it)
+	}
+	if r.Chance(35) {
+		// a message whose total size is exactly max-1, max or max+1
+		it := c07GenMsg(r, 20)
+		it.plen = 0
+		if b, err := it.bytes(); err == nil {
+			want := s.max + r.Intn(3) - 1
+			for k := 0; k < 4; k++ { // the length header grows with the body: iterate to the fixpoint
+				b, err = it.bytes()
+				if err != nil || len(b) == want {
+					break
+				}
+				it.plen += want - len(b)
+				if it.plen < 0 {
+					it.plen = 0
+					break
+				}
+			}
+			if b, err = it.bytes(); err == nil && len(b) >= want-1 && len(b) <= want+1 {
+				s.items[r.Intn(len(s.items))] = it
+			}
+		}
 	}
 	pos := r.Intn(len(s.items) + 1)
 	ins := func(it c07Item) {
